@@ -1098,6 +1098,68 @@ func c14E2EScenarios(tier string) []*world.Scenario {
 		m[1].Slots = [][2]int{{slot, 10922}}
 		return m
 	}(), key, AddrB, b))
+	// the REAL boot path (serve() + engine.start(), seed pools): the FIRST description is adopted from a seed within the
+	// same number of ticker rounds - one seed, a seed that refuses connections next to live ones, a replica as the only seed
+	for _, c := range []struct {
+		name   string
+		seeds  []string
+		refuse string
+	}{{"one-seed", []string{AddrB}, ""}, {"dead-seed-first", []string{AddrD, AddrB}, AddrD}, {"replica-seed", []string{AddrA1}, ""}, {"all-nodes", []string{AddrA, AddrB, AddrC, AddrA1, AddrA2, AddrB1}, ""}} {
+		sc := &world.Scenario{Nodes: T3(), Bound: 0, Family: "real-boot", Horizon: 900, RealBoot: true, Seeds: c.seeds, RefreshLoop: true, CheckOwner: true,
+			IntnChoice: c.refuse != "", FreeKinds: []string{"intn"},
+			Ticks: []time.Duration{1100 * time.Millisecond, 1100 * time.Millisecond, 1100 * time.Millisecond, 1100 * time.Millisecond}}
+		if c.refuse != "" {
+			sc.RefuseDial = map[string]int{c.refuse: -1}
+			sc.RetryTimeoutMs = 10
+			// the probe target is an enumerated choice only while the first description has not been adopted (two seeds)
+			sc.IntnGate = func(w *world.World) bool { return len(core.VerifPools()) <= 2 }
+		}
+		sc.TickGate = func(w *world.World) bool { return w.ProbesIdle() }
+		reqs := []Req{SetReq(keysA[0], "v"), SetReq(keysB[0], "v"), SetReq(keysC[0], "v")}
+		cs := ClientOf(reqs, false)
+		for j := range cs.Chunks {
+			cs.Chunks[j].WaitTicks, cs.Chunks[j].WaitReplies = 4, j
+			cs.Chunks[j].Gate = func(w *world.World) bool { return w.ProbesIdle() }
+		}
+		sc.Clients = []world.ClientSpec{cs}
+		sc.Name = fmt.Sprintf("C14/real-boot/%s/d0", c.name)
+		dead := c.refuse != ""
+		sc.Observe = func(w *world.World) string {
+			ok := 0
+			for _, rec := range w.DataCmds("") {
+				m := w.Sc.MasterOf(world.SpecSlot(rec.Args[1]))
+				if m != nil && m.Addr == rec.Addr {
+					ok++
+				}
+			}
+			return fmt.Sprintf("%d", ok)
+		}
+		sc.Check = func(w *world.World) []world.Violation {
+			if w.RefreshDead {
+				return []world.Violation{{Sig: "refresh-loop-exits-on:valid-text", Msg: "the refresh goroutine terminated during the first probes"}}
+			}
+			if dead {
+				return nil // judged over all probe-target choices (Final)
+			}
+			for _, rec := range w.DataCmds("") {
+				m := w.Sc.MasterOf(world.SpecSlot(rec.Args[1]))
+				if m == nil || m.Addr != rec.Addr {
+					return []world.Violation{{Sig: "stale-or-wrong-table", Msg: fmt.Sprintf("four ticker rounds after start (seeds %v) %q was routed to %s", w.Sc.Seeds, rec.Raw, rec.Addr)}}
+				}
+			}
+			return CheckStreams(w, StreamOpts{})
+		}
+		if dead {
+			// which seed a round probes is the proxy's (random) choice: some choice sequence must get the table adopted
+			sc.Final = func(obs map[string]int) []world.Violation {
+				if obs["3"] > 0 {
+					return nil
+				}
+				return []world.Violation{{Sig: "probe-stuck-on-unreachable-node", Msg: fmt.Sprintf("one seed refuses connections, the others are live: over ALL probe-target choices of four ticker rounds the first description was never adopted (outcomes %v)", obs)}}
+			}
+		}
+		out = append(out, sc)
+	}
 	// reads after the move may go to B or its replica b1: judge writes only for the exact node, reads for the set
 	out = append(out, c14DeadNode(tier))
 	return out
